@@ -146,7 +146,10 @@ def post(outs, events):
 
 
 def header_check(pkg_files, source_name):
+    "the translation unit - the source file and, on ATLAS, the query.h it includes first - names the header"
     src = pkg_files[source_name]
+    if source_name == "query.cxx" and "#include <analysis/query.h>" in src:
+        src = pkg_files.get("query.h", "") + src
     return '#include "cmath"' in src or "#include <cmath>" in src
 
 
@@ -227,6 +230,27 @@ def main(tier="quick"):
     # header check needs the files: do it through a second cheap translation pass in-process (one per function)
     from mc.core.pipeline import translate_case
     nhdr = 0
+    # the header must be pulled in on every backend, also next to injected code blocks that mention the same header in ANY field
+    from mc.core.translate import translate
+    for backend in ("atlas", "cms_aod", "cms_miniaod"):
+        coll = qgen.ALPHA[backend].primary
+        for fld in (None, "header_includes", "body_includes", "both"):
+            blk = {"metadata_type": "inject_code", "name": "blk"}
+            if fld in ("header_includes", "both"):
+                blk["header_includes"] = ["cmath"]
+            if fld in ("body_includes", "both"):
+                blk["body_includes"] = ["cmath"]
+            for fn in ("sqrt(j.pt())", "hypot(j.pt(), j.eta())", "abs(j.pt())"):
+                q = f"ds.SelectMany(lambda e: e.{coll}('A')).Select(lambda j: {fn})"
+                if fld is not None:
+                    q = q.replace("ds.", f"MetaData(ds, {blk!r}).", 1)
+                pkg = translate(q, backend)
+                nhdr += 1
+                if not pkg.ok:
+                    rep.violation(f"hdr-{backend}-{fld}-{fn[:4]}", f"refused [{backend}] with an inject_code block ({fld}): {q} :: {pkg.exc_msg}", {"query": q, "backend": backend})
+                elif not header_check(pkg.files, pkg.source_name):
+                    rep.violation(f"hdr-{backend}-{fld}-{fn[:4]}", f"[{backend}] the rendered translation unit does not include cmath although it calls {fn} (inject_code block: {fld}): {q}",
+                                  {"query": q, "backend": backend, "symptom": "missing-header"})
     for c in cases:
         if c.info["context"] != "bare" or c.backend != "atlas":
             continue
